@@ -2,10 +2,25 @@
 """Regenerates MANIFEST.json from the table below (single source of truth for the interface)."""
 import json, os
 HERE = os.path.dirname(os.path.dirname(os.path.abspath(__file__)))
+MU_NOTE = 'SC interleavings; 2-3 threads, 1-4 operations each, one mutex/cv/note; semaphore, waiter pool and note operations single steps (Sem.tla/Note.tla justify); TLC, SANY, gcc -fsanitize=thread instrumentation, /verif/rt trusted'
+TECH = 'TLA+/PlusCal spec at atomic-operation granularity + TLC exhaustive model checking + transition-tour lock-step replay on the real code with property oracles'
+def mu(text, ref):
+    return ("model_checking", text, MU_NOTE, ref, TECH)
 CHECKS = {
+ "C01": mu("Mu.tla transcribes mu.c/mu_wait.c/cv.c/wait.c with one label per atomic operation (constants read from the build); TLC explores every interleaving of the configured 2-3 thread programs (lock/rlock/trylock/unlock, timed and cancellable cv waits in read and write mode, conditional waits, wait_n, debug caller) and evaluates Excl in every state; every transition is then replayed in lock-step on the real code, where shadow occupancy at the RWLOCK annotations (O-excl) is checked at each step. Exhaustive for the listed configurations.", "4.C01"),
+ "C02": mu("Deadlock freedom / no lost lock wake-up: every terminal state of Mu.tla's graph for lock/rlock/trylock/unlock programs (with thread exit and waiter-pool reuse) must have all threads finished; stuck terminal states are replayed on the real code (O-prog). trylock/rtrylock take at most three shared operations in the spec and the code is shown step-equivalent.", "4.C02"),
+ "C04": mu("cv wake-ups: monitor-pattern programs whose only source of progress is the wake-up (signal/broadcast inside or after the critical section, timed, cancellable, reader-mode and nsync_wait_n waiters); lost wake-ups are stuck terminal states; PickedReportsWake says a wait unlinked by a waker returns 0; all transitions replayed on the real code with O-prog/O-ret.", "4.C04"),
+ "C05": mu("Timed/cancellable waits: RetHonest in every state; on the code, every wait return is checked for lock mode, ETIMEDOUT only at/after the deadline on the virtual clock, ECANCELED only if the note is notified, mu_wait 0 iff condition true; deadline/note/wake-up orderings enumerated exhaustively by TLC (Tick and notify are schedulable anywhere).", "4.C05"),
+ "C06": mu("Conditional critical sections: waiters on conditions of a table (same fn+arg, eq-equivalent args, different args, different functions) in reader/writer mode with timeouts and unlock_without_wakeup; a waiter whose condition was made true and is left asleep is a stuck terminal state; same_condition rings are modelled at pointer level; O-cond checks each real condition callback runs under the lock with no concurrent writer.", "4.C06"),
+ "C13": mu("Reference-count pattern (lock; last=--refs==0; unlock; free if last) with 2-3 threads: NoTouchAfterFree (no thread's next step touches mu once freed) in every state and arena poisoning on the code; wakers vs nsync_wait_n records: NoDeadRecordTouch + dead-record tracking (O-mem) on the code.", "4.C13"),
+ "C14": mu("Bounded overtaking: victim + a barger that loops for ever (finite graph), K=LONG_WAIT_THRESHOLD read from the build; SleepBound (victim's semaphore sleeps in one lock call < K+3) in every state, tours replayed with O-starve; plus a scripted barge-in-every-window adversary (victim W/R among W/R/trylockers, 1-3 bargers) and random schedules with 4-6 bargers on the real code.", "4.C14"),
+ "C16": mu("Debug-state caller added to locker/waiter/waker programs: Excl, WordAgrees and no stuck terminal state in every state of Mu.tla (the release variant of emit_mu_state is observed from the code and selects the model), all transitions replayed on the real debug.c/mu.c with O-excl/O-prog. Buffer-bound part (b) of the property: see level_note.", "4.C16"),
  "C12": ("model_checking", "Sem.tla (futex semaphore at atomic-operation/futex-call granularity) model-checked by TLC for token conservation, honest timeouts and no lost post with up to 3 injected early kernel returns; every transition of every configuration is replayed in lock-step on the real nsync_semaphore_futex.c against a modelled futex, so the exhaustive verdict transfers to the code for these configurations.",
          "modelled futex semantics (value-check+sleep atomic, wake(1), absolute timeouts); one waiter, <=2 posters; SC interleavings; TLC, SANY, gcc -fsanitize=thread instrumentation, /verif/rt runtime", "4.C12",
          "TLA+ spec + TLC exhaustive model checking + full transition-tour lock-step replay on the real code"),
+ "C17": ("model_checking", "Dll.tla: pointer-level transcription of dll.c with ghost abstract sequences; TLC reaches a fixpoint over 5 elements / 2 lists (all operation sequences of any length over that universe) checking forward/backward traversal = sequence, self-linked singletons, emptiness; every transition replayed on the real dll.c comparing traversals with the abstract sequences (O-diff), plus TLC-simulated longer sequences over 8 elements.",
+         "C preconditions respected; universe of 5 (exhaustive) and 8 (sampled) elements; TLC, SANY trusted", "4.C17",
+         "TLA+ spec + TLC exhaustive model checking (fixpoint) + full transition replay with differential comparison"),
 }
 NA = {}
 props = [json.loads(l)["id"] for l in open(os.path.join(HERE, "properties.jsonl"))]
